@@ -3,7 +3,6 @@ package nc
 import (
 	"fmt"
 	"go/token"
-	"go/types"
 	"sort"
 	"strings"
 
@@ -38,118 +37,164 @@ func C12(p *Prog, r *Run) {
 	actByType := p.Func(PkgM, "NodeActivatorsFactory.ActivateByType")
 
 	r.Rule("C12.1", "bias-link partition: in processIncomingConnections every incoming link is folded into biases[target] (bias source) or becomes a FastNetworkLink{source, target, weight}, never both, never neither", func() {
-		fn := p.Func(PkgN, "Network.processIncomingConnections")
+		// the function that holds the translation loop and the roles of its inputs there (robust_c12.go): the pinned
+		// method with its parameters, or FastNetworkSolver itself when the loop stands in place
+		x := c12FindXlate(p)
+		fn, tm := x.fn, x.tm
 		r.Fn(FuncName(fn))
-		tm := NewTermer(fn)
+		if x.inPlace {
+			r.Note("C12.1: Network.processIncomingConnections does not exist; its loop is examined where it stands in %s", FuncName(fn))
+		}
 		biasC := p.Const(PkgN, "BiasNeuron")
-		var biasStore *ssa.Store
-		var linkAlloc *ssa.Alloc
-		Instrs(fn, func(_ *ssa.BasicBlock, _ int, in ssa.Instruction) {
-			switch x := in.(type) {
-			case *ssa.Store:
-				if ia, ok := x.Addr.(*ssa.IndexAddr); ok && isParamIdx(tm.Of(ia.X), 2) {
-					biasStore = x
-				}
-			case *ssa.Alloc:
-				if n, ok := deref(x.Type()).(interface{ Obj() *types.TypeName }); ok && n.Obj().Name() == "FastNetworkLink" {
-					linkAlloc = x
-				}
-			}
-		})
-		if biasStore == nil || linkAlloc == nil {
-			r.Bad("processIncomingConnections", p.Pos(fn.Pos()), fmt.Sprintf("bias folding present=%v, connection creation present=%v: bias links are dropped or duplicated", biasStore != nil, linkAlloc != nil))
+		if len(x.biasStores) == 0 || len(x.linkAllocs) == 0 {
+			r.Bad("processIncomingConnections", p.Pos(fn.Pos()), fmt.Sprintf("bias folding present=%v, connection creation present=%v: bias links are dropped or duplicated", len(x.biasStores) > 0, len(x.linkAllocs) > 0))
 			return
 		}
-		// same condition, opposite sides
-		// The test may be written as ==, != (either operand order) or under !; what
-		// is decided is the fact each arm establishes: "source is a bias neuron" holds
-		// where the bias is folded and is refuted where the connection is created.
-		var cond ssa.Value
-		var srcType *Term
-		var biasSide, linkSide bool
-		for _, g := range Guards(biasStore.Block()) {
-			if core, st, isBias, ok := c12BiasTest(tm, g.Cond, g.True, biasC.Val().ExactString()); ok {
-				cond, srcType, biasSide = core, st, isBias
+		// instances of the loop: (bias store, connection allocation) pairs that are the two arms of one test.  The
+		// pinned method has one; code written out in place may repeat it per list.
+		biasCore := func(b *ssa.BasicBlock, want bool) ssa.Value {
+			var core ssa.Value
+			for _, g := range Guards(b) {
+				if c, _, isBias, ok := c12BiasTest(tm, g.Cond, g.True, biasC.Val().ExactString()); ok && isBias == want {
+					core = c
+				}
 			}
+			return core
 		}
-		for _, g := range Guards(linkAlloc.Block()) {
-			if core, _, isBias, ok := c12BiasTest(tm, g.Cond, g.True, biasC.Val().ExactString()); ok && core == cond {
-				linkSide = !isBias
-			}
+		type inst struct {
+			bias *ssa.Store
+			link *ssa.Alloc
 		}
-		r.Check(cond != nil && biasSide && linkSide, "partition", p.Pos(biasStore.Pos()), "bias folding and connection creation are the two arms of `source.NeuronType == BiasNeuron`",
-			"bias folding and connection creation are not the two arms of one test of the link source being a bias neuron")
-		// bias store: biases[target] = biases[target] + link.ConnectionWeight
-		v := tm.Of(biasStore.Val)
-		idx := biasStore.Addr.(*ssa.IndexAddr).Index
-		okV := v.Op == "bin" && v.Name == "+"
-		if okV {
-			var old, w *Term = v.Args[0], v.Args[1]
-			if old.Op != "elem" {
-				old, w = w, old
-			}
-			okV = old.Op == "elem" && isParamIdx(old.Args[0], 2) && old.Args[1].V == idx && w.Op == "field" && w.Name == "ConnectionWeight"
-			// the link whose weight is added is the one whose source was tested
-			if okV && cond != nil {
-				okV = strings.HasPrefix(srcType.String(), w.Args[0].String()+".")
-			}
-		}
-		r.Check(okV, "bias.accumulate", p.Pos(biasStore.Pos()), "biases[target] += link.ConnectionWeight", "the bias of the target neuron is not accumulated as biases[target] + link.ConnectionWeight: "+v.String())
-		tIdx := tm.Of(idx)
-		r.Check(tIdx.Op == "lookup" && isParamIdx(tIdx.Args[0], 3) && strings.HasSuffix(tIdx.Args[1].String(), "p1[*].Id"), "bias.index", p.Pos(biasStore.Pos()), "indexed by the target neuron's position", "the bias is stored at "+tIdx.String()+", not at the target neuron's index")
-		// link fields
-		want := map[string]func(t *Term) bool{
-			"SourceIndex": func(t *Term) bool {
-				return t.Op == "lookup" && isParamIdx(t.Args[0], 3) && strings.HasSuffix(t.Args[1].String(), ".InNode.Id")
-			},
-			"TargetIndex": func(t *Term) bool {
-				return t.Op == "lookup" && isParamIdx(t.Args[0], 3) && t.Args[1].String() == "p1[*].Id"
-			},
-			"Weight": func(t *Term) bool { return t.Op == "field" && t.Name == "ConnectionWeight" },
-		}
-		got := map[string]bool{}
-		for _, ref := range *linkAlloc.Referrers() {
-			if fa, ok := ref.(*ssa.FieldAddr); ok {
-				for _, r2 := range *fa.Referrers() {
-					if st, ok := r2.(*ssa.Store); ok {
-						name := fieldOf(fa.X.Type(), fa.Field).Name()
-						if chk, ok := want[name]; ok {
-							t := tm.Of(st.Val)
-							r.Check(chk(t), "connection."+name, p.Pos(st.Pos()), name+" <- "+t.String(), name+" of the fast connection is "+t.String())
-							got[name] = true
+		var insts []inst
+		if len(x.biasStores) == 1 && len(x.linkAllocs) == 1 {
+			insts = []inst{{x.biasStores[0], x.linkAllocs[0]}}
+		} else {
+			used := map[*ssa.Store]bool{}
+			for _, la := range x.linkAllocs {
+				var bs *ssa.Store
+				if core := biasCore(la.Block(), false); core != nil {
+					for _, s := range x.biasStores {
+						if !used[s] && biasCore(s.Block(), true) == core {
+							bs = s
+							break
 						}
 					}
 				}
+				if bs == nil {
+					r.Bad("partition", p.Pos(la.Pos()), "this connection creation is not paired with a bias folding under the opposite outcome of one test of the link source being a bias neuron")
+					continue
+				}
+				used[bs] = true
+				insts = append(insts, inst{bs, la})
+			}
+			for _, s := range x.biasStores {
+				if !used[s] {
+					r.Bad("partition", p.Pos(s.Pos()), "this bias folding is not paired with a connection creation under the opposite outcome of one test of the link source being a bias neuron")
+				}
 			}
 		}
-		for name := range want {
-			if !got[name] {
-				r.Bad("connection."+name, p.Pos(linkAlloc.Pos()), name+" of the fast connection is never set")
+		for _, in := range insts {
+			biasStore, linkAlloc := in.bias, in.link
+			// same condition, opposite sides
+			// The test may be written as ==, != (either operand order) or under !; what
+			// is decided is the fact each arm establishes: "source is a bias neuron" holds
+			// where the bias is folded and is refuted where the connection is created.
+			var cond ssa.Value
+			var srcType *Term
+			var biasSide, linkSide bool
+			for _, g := range Guards(biasStore.Block()) {
+				if core, st, isBias, ok := c12BiasTest(tm, g.Cond, g.True, biasC.Val().ExactString()); ok {
+					cond, srcType, biasSide = core, st, isBias
+				}
 			}
-		}
-		// appended
-		app := false
-		for _, c := range CallsNamed(fn, "append") {
-			if strings.Contains(tm.Of(c.Common().Args[1]).String(), "FastNetworkLink") && (c.Block() == linkAlloc.Block() || linkAlloc.Block().Dominates(c.Block())) {
-				app = true
+			for _, g := range Guards(linkAlloc.Block()) {
+				if core, _, isBias, ok := c12BiasTest(tm, g.Cond, g.True, biasC.Val().ExactString()); ok && core == cond {
+					linkSide = !isBias
+				}
 			}
+			r.Check(cond != nil && biasSide && linkSide, "partition", p.Pos(biasStore.Pos()), "bias folding and connection creation are the two arms of `source.NeuronType == BiasNeuron`",
+				"bias folding and connection creation are not the two arms of one test of the link source being a bias neuron")
+			// bias store: biases[target] = biases[target] + link.ConnectionWeight
+			v := tm.Of(biasStore.Val)
+			idx := biasStore.Addr.(*ssa.IndexAddr).Index
+			okV := v.Op == "bin" && v.Name == "+"
+			if okV {
+				var old, w *Term = v.Args[0], v.Args[1]
+				if old.Op != "elem" {
+					old, w = w, old
+				}
+				okV = old.Op == "elem" && x.isBiases(old.Args[0]) && old.Args[1].V == idx && w.Op == "field" && w.Name == "ConnectionWeight"
+				// the link whose weight is added is the one whose source was tested
+				if okV && cond != nil {
+					okV = strings.HasPrefix(srcType.String(), w.Args[0].String()+".")
+				}
+			}
+			r.Check(okV, "bias.accumulate", p.Pos(biasStore.Pos()), "biases[target] += link.ConnectionWeight", "the bias of the target neuron is not accumulated as biases[target] + link.ConnectionWeight: "+v.String())
+			// the neuron whose incoming links are walked: element i of list L.  Bias index and TargetIndex must name the
+			// position of that same neuron.
+			tIdx := tm.Of(idx)
+			var bList, bIdx *Term
+			okI := tIdx.Op == "lookup" && x.isLookup(tIdx.Args[0])
+			if okI {
+				bList, bIdx, okI = c12ListElemId(tIdx.Args[1], x.isList)
+			}
+			r.Check(okI, "bias.index", p.Pos(biasStore.Pos()), "indexed by the target neuron's position", "the bias is stored at "+tIdx.String()+", not at the target neuron's index")
+			// link fields
+			want := map[string]func(t *Term) bool{
+				"SourceIndex": func(t *Term) bool {
+					return t.Op == "lookup" && x.isLookup(t.Args[0]) && strings.HasSuffix(t.Args[1].String(), ".InNode.Id")
+				},
+				"TargetIndex": func(t *Term) bool {
+					if t.Op != "lookup" || !x.isLookup(t.Args[0]) {
+						return false
+					}
+					l, i, ok := c12ListElemId(t.Args[1], x.isList)
+					if ok && bList != nil && x.inPlace {
+						// in place several lists are in scope: the connection's target is the neuron the bias is folded for
+						ok = l.V == bList.V && i.V == bIdx.V
+					}
+					return ok
+				},
+				"Weight": func(t *Term) bool { return t.Op == "field" && t.Name == "ConnectionWeight" },
+			}
+			got := map[string]bool{}
+			fieldStores := c12LinkFieldStores(linkAlloc)
+			for _, name := range []string{"SourceIndex", "TargetIndex", "Weight"} {
+				chk := want[name]
+				for _, st := range fieldStores[name] {
+					t := tm.Of(st.Val)
+					r.Check(chk(t), "connection."+name, p.Pos(st.Pos()), name+" <- "+t.String(), name+" of the fast connection is "+t.String())
+					got[name] = true
+				}
+			}
+			for _, name := range []string{"SourceIndex", "TargetIndex", "Weight"} {
+				if !got[name] {
+					r.Bad("connection."+name, p.Pos(linkAlloc.Pos()), name+" of the fast connection is never set")
+				}
+			}
+			// appended
+			app := false
+			for _, c := range CallsNamed(fn, "append") {
+				if strings.Contains(tm.Of(c.Common().Args[1]).String(), "FastNetworkLink") && (c.Block() == linkAlloc.Block() || linkAlloc.Block().Dominates(c.Block())) {
+					app = true
+				}
+			}
+			r.Check(app, "connection.appended", p.Pos(linkAlloc.Pos()), "the connection is appended to the result", "the created connection is not appended to the result list")
 		}
-		r.Check(app, "connection.appended", p.Pos(linkAlloc.Pos()), "the connection is appended to the result", "the created connection is not appended to the result list")
 		// FastNetworkSolver feeds every neuron list through it
 		fns := p.Func(PkgN, "Network.FastNetworkSolver")
-		cs := CallsTo(fns, fn)
-		r.Floor("processIncomingConnections call sites", len(cs), 3)
+		r.Floor("processIncomingConnections call sites", len(x.sites), 3)
 		tf := NewTermer(fns)
 		lists := map[string]bool{}
-		for _, c := range cs {
-			a := tf.Of(c.Common().Args[1]).String()
+		for _, c := range x.sites {
+			a := tf.Of(c.list).String()
 			if a != "recv.Outputs" {
-				a = fmt.Sprintf("%p", c.Common().Args[1])
+				a = fmt.Sprintf("%p", c12StripCT(c.list))
 			}
 			lists[a] = true
-			b := tf.Of(c.Common().Args[2])
+			b := tf.Of(c.biases)
 			if b.Op != "make" {
-				r.Bad("solver.biases", p.Pos(c.Pos()), "the bias array passed on is "+b.String())
+				r.Bad("solver.biases", p.Pos(c.pos), "the bias array passed on is "+b.String())
 			}
 		}
 		r.Check(lists["recv.Outputs"], "solver.outputs", p.Pos(fns.Pos()), "incoming links of the outputs are translated", "incoming links of the output neurons are not translated")
@@ -158,7 +203,11 @@ func C12(p *Prog, r *Run) {
 
 	r.Rule("C12.2", "every activation site of the fast solver consumes the bias: ActivateByType receives signal[i]+biasList[i] (same i), omitted only under biasNeuronCount <= 0, with activationFunctions[i]", func() {
 		n := 0
+		pinned := PinnedFuncs()
 		for _, fn := range solverMethods() {
+			if p.expandedAway(fn, pinned) {
+				continue // never executed; its activation sites are checked where the normaliser expanded them
+			}
 			tm := NewTermer(fn)
 			for _, c := range CallsTo(fn, actByType) {
 				n++
@@ -250,7 +299,15 @@ func C12(p *Prog, r *Run) {
 	r.Rule("C12.3", "delegation: only forwardStep and recursiveActivateNode activate neurons in the fast solver; ForwardSteps and Relax go through forwardStep; Network.RecursiveSteps = ForwardSteps(depth); bias signals start at 1", func() {
 		allowed := map[string]bool{"forwardStep": true, "recursiveActivateNode": true}
 		actMod := p.Func(PkgM, "NodeActivatorsFactory.ActivateModuleByType")
+		pinned := PinnedFuncs()
 		for _, fn := range solverMethods() {
+			// The declaration of a NEW unexported helper that nothing refers to any more (no static call, no value
+			// use, no interface that names it: every call of it was expanded in place by the normaliser) is never
+			// executed. Its activation calls are examined where they were expanded: in forwardStep /
+			// recursiveActivateNode they are legitimate, in any other solver method the expanded copy is reported here.
+			if p.expandedAway(fn, pinned) {
+				continue
+			}
 			if len(CallsTo(fn, actByType))+len(CallsTo(fn, actMod)) > 0 && !allowed[fn.Name()] {
 				r.Bad("activation-site:"+fn.Name(), p.Pos(fn.Pos()), fn.Name()+" activates neurons itself; the fast solver's only activation sites are forwardStep and recursiveActivateNode (checked by C12.2)")
 			}
@@ -429,7 +486,6 @@ func (r *Run) c12Layout() {
 	p := r.P
 	fn := p.Func(PkgN, "Network.FastNetworkSolver")
 	pl := p.Func(PkgN, "processList")
-	pic := p.Func(PkgN, "Network.processIncomingConnections")
 	ctor := p.Func(PkgN, "NewFastModularNetworkSolver")
 	r.Fn(FuncName(fn), FuncName(pl))
 	tm := NewTermer(fn)
@@ -495,17 +551,18 @@ func (r *Run) c12Layout() {
 	}
 	acts, lookup := calls[0].Common().Args[2], calls[0].Common().Args[3]
 	// connections
-	pcs := CallsTo(fn, pic)
+	// (one entry per list the translation loop is run on: the calls of processIncomingConnections, or the loop
+	// standing in place in this function - robust_c12.go)
+	pcs := c12FindXlate(p).sites
 	got := map[string]bool{}
 	var biases ssa.Value
 	okShared := len(pcs) > 0
 	for _, c := range pcs {
-		a := c.Common().Args
-		got[roleOf(a[1])] = true
+		got[roleOf(c.list)] = true
 		if biases == nil {
-			biases = a[2]
+			biases = c.biases
 		}
-		okShared = okShared && a[2] == biases && a[3] == lookup
+		okShared = okShared && c12StripCT(c.biases) == c12StripCT(biases) && c12StripCT(c.lookup) == c12StripCT(lookup)
 	}
 	r.Check(got["HiddenNeuron"] && got["OutputNeuron"] && okShared, "layout.connections", p.Pos(fn.Pos()), "incoming links of hidden and output neurons are translated with the same id->index lookup and bias array",
 		fmt.Sprintf("incoming connections are translated for %v with shared lookup/bias array=%v; hidden and output neurons must both be covered", keysOf(got), okShared))
@@ -533,8 +590,8 @@ func (r *Run) c12Layout() {
 				}
 			}
 		}
-		r.Check(okBias && okIn && okOut && okTot && a[4] == acts && a[6] == biases, "layout.constructor", p.Pos(cs[0].Pos()), "solver built from (bias count, input count, output count, total, the filled activation array, connections, the filled bias array)",
-			fmt.Sprintf("the solver is not built from the counts and arrays the translation filled (bias count=%v input count=%v output count=%v total=%v activations=%v biases=%v)", okBias, okIn, okOut, okTot, a[4] == acts, a[6] == biases))
+		r.Check(okBias && okIn && okOut && okTot && a[4] == acts && c12StripCT(a[6]) == c12StripCT(biases), "layout.constructor", p.Pos(cs[0].Pos()), "solver built from (bias count, input count, output count, total, the filled activation array, connections, the filled bias array)",
+			fmt.Sprintf("the solver is not built from the counts and arrays the translation filled (bias count=%v input count=%v output count=%v total=%v activations=%v biases=%v)", okBias, okIn, okOut, okTot, a[4] == acts, c12StripCT(a[6]) == c12StripCT(biases)))
 	} else {
 		r.Bad("layout.constructor", p.Pos(fn.Pos()), fmt.Sprintf("%d constructor calls", len(cs)))
 	}
@@ -597,6 +654,16 @@ func (r *Run) c12Layout() {
 // guards b. Two counter forms: the three-clause loop (iv is a header phi entering with 0 and advanced by one on
 // every back edge) and the range loop (iv = k+1 for a header phi k entering with -1 and carrying iv on every back edge).
 func c12CountsInputs(tm *Termer, fn *ssa.Function, b *ssa.BasicBlock, iv ssa.Value) bool {
+	return c12CountsTo(fn, b, iv, func(n ssa.Value) bool {
+		bt := tm.Of(n).String()
+		return bt == "recv.inputNeuronCount" || bt == "len(p1)"
+	})
+}
+
+// c12CountsTo: block b is executed for iv = 0, 1, .., n-1 (in this order, unless the loop is left early), n being
+// a value accepted by bound: iv is the counter of the innermost loop around b, whose header test `iv < n` guards b
+// (counter forms as described at c12CountsInputs).
+func c12CountsTo(fn *ssa.Function, b *ssa.BasicBlock, iv ssa.Value, bound func(ssa.Value) bool) bool {
 	l := InnermostLoop(Loops(fn), b)
 	if l == nil || len(l.Header.Succs) != 2 {
 		return false
@@ -610,7 +677,7 @@ func c12CountsInputs(tm *Termer, fn *ssa.Function, b *ssa.BasicBlock, iv ssa.Val
 	if !ok || cmp.Op != token.LSS || cmp.X != iv {
 		return false
 	}
-	if bt := tm.Of(cmp.Y).String(); bt != "recv.inputNeuronCount" && bt != "len(p1)" {
+	if !bound(cmp.Y) {
 		return false
 	}
 	var ph *ssa.Phi
